@@ -149,7 +149,11 @@ fn walk<'a>(root: &'a Value, c: &'a Value, chain: &mut Vec<&'a Value>, at: &str,
                 key.to_string()
             };
             let kind = kind_s.as_str();
-            match resolve(root, chain, p) {
+            // a divert-target VALUE is looked up from the root whatever it looks like (the
+            // runtime hands its path to content_at_path of the main container, which ignores
+            // the relative flag), so a leading dot changes nothing
+            let p_eff = if key == "^->" { p.strip_prefix('.').unwrap_or(p) } else { p };
+            match resolve(root, chain, p_eff) {
                 Ok(is_c) => {
                     if need_container && !is_c {
                         out.push(Dangling { kind: kind.into(), path: p.into(), at: here.clone(), why: "resolves to non-container content".into() });
